@@ -1,1 +1,50 @@
-Theorem placeholder_removed_later : True. Proof. exact I. Qed. Print Assumptions placeholder_removed_later.
+(* C16 - IP-diversity limits.
+   Statements only; every theorem is closed by [exact] of a lemma proved in Proofs/Subnet.v and
+   followed by Print Assumptions.  See DESIGN.md section 6 (C16).
+
+   [SubnetInv t] : for every /24 [s], at most MAX_NODES_PER_SUBNET_TABLE values of the table (nodes and
+                   pending nodes of all buckets) and at most MAX_NODES_PER_SUBNET_BUCKET nodes of each
+                   bucket have [vsub = Some s].
+   Hypotheses (visible in the statements):
+   - the configuration installs the two IP filters of src/kbucket/filter.rs;
+   - [op_ok owner subof o]: the values carried by insert_or_update / update_node are records of the key
+     they are offered for ([owner (vid v) = k]; a record's node id IS its key) and the /24 is a function
+     of the record ([vsub v = subof (vid v)]); the raw Entry-API insertion (AbsentEntry::insert,
+     documented as bypassing the filters) is not used.
+   Proofs/SubnetExamples.v shows the hypotheses are satisfiable, the limits are reached exactly, and
+   that each of the two well-formedness hypotheses is necessary for the model. *)
+From Coq Require Import List Arith NArith.
+From Discv5V Require Import Generated.Params Lib.ListX Model.KBucket
+  Proofs.KBucketInv Proofs.KBucketTable Proofs.KBucketPending Proofs.Subnet.
+Import ListNotations.
+
+Theorem C16_limits_are_the_rust_constants :
+  LT = N.to_nat MAX_NODES_PER_SUBNET_TABLE /\ LB = N.to_nat MAX_NODES_PER_SUBNET_BUCKET.
+Proof. split; reflexivity. Qed.
+Print Assumptions C16_limits_are_the_rust_constants.
+
+Theorem C16_subnet_limits_reachable :
+  forall (owner : N -> N) (subof : N -> option N) c fixed loc ops,
+  bfilter c = Some ip_bucket_filter -> tfilter c = Some ip_table_filter ->
+  Forall (fun x => op_ok owner subof (fst x)) ops ->
+  forall s,
+    count (in_sub s) (table_values (fst (run fixed c (new_table loc) ops))) <= LT /\
+    forall i, count (in_sub s) (values (nodes (get_bucket (fst (run fixed c (new_table loc) ops)) i))) <= LB.
+Proof. exact reachable_subnet. Qed.
+Print Assumptions C16_subnet_limits_reachable.
+
+(* the inductive step: limits + C07 invariant + well-formedness of the stored records *)
+Theorem C16_subnet_limits_step :
+  forall (owner : N -> N) (subof : N -> option N) c fixed t o now,
+  bfilter c = Some ip_bucket_filter -> tfilter c = Some ip_table_filter ->
+  TCInv owner subof c t -> op_ok owner subof o ->
+  TCInv owner subof c (fst (step fixed c t o now)).
+Proof. exact step_subnet. Qed.
+Print Assumptions C16_subnet_limits_step.
+
+(* nodes without an IPv4 address are never refused by either filter *)
+Theorem C16_no_ip_unaffected :
+  forall v others, vsub v = None ->
+  ip_bucket_filter v others = true /\ ip_table_filter v others = true.
+Proof. intros v others H. split; exact (no_ip_unaffected _ v others H). Qed.
+Print Assumptions C16_no_ip_unaffected.
